@@ -255,6 +255,27 @@ def rule_e3(chk: Check) -> None:
         chk.ob("E3", f"{fi.key}: cap enforced on every exit", ok, evals=3)
 
 
+def _bounded_await(chk: Check, ci, v: ast.AST, depth: int) -> bool:
+    """`await v` completes within self.timeout: v is asyncio.wait_for(...,
+    timeout=self.timeout), or a call of a helper method of the class all of
+    whose awaits are bounded in that sense and none of which sits in a loop
+    (a loop of bounded waits is not bounded)."""
+    if not isinstance(v, ast.Call) or depth > 3:
+        return False
+    if (dotted(v.func) or "").endswith("wait_for"):
+        t = kwarg(v, "timeout") or (v.args[1] if len(v.args) > 1 else None)
+        return t is not None and dotted(t) == "self.timeout"
+    d = dotted(v.func) or ""
+    if d.startswith("self."):
+        h = chk.proj.find_method(ci, d[5:])
+        if h is None:
+            return False
+        aws = [x for x in walk(h.node) if isinstance(x, ast.Await)]
+        in_loop = any(isinstance(l, (ast.While, ast.For, ast.AsyncFor)) and any(isinstance(x, ast.Await) for x in walk(l)) for l in walk(h.node))
+        return bool(aws) and not in_loop and all(_bounded_await(chk, ci, a.value, depth + 1) for a in aws)
+    return False
+
+
 def rule_e4(chk: Check) -> None:
     chk.rule("E4", "create_connection and the response future are awaited only inside asyncio.wait_for(..., timeout=self.timeout); the transport is closed on every exit after a successful connection")
     ci = chk.proj.cls("client.session:GeminiClient")
@@ -267,11 +288,7 @@ def rule_e4(chk: Check) -> None:
             txt = norm(aw.value)
             if "create_connection" in txt or "response_future" in txt:
                 n += 1
-                v = aw.value
-                ok = isinstance(v, ast.Call) and (dotted(v.func) or "").endswith("wait_for")
-                if ok:
-                    t = kwarg(v, "timeout") or (v.args[1] if len(v.args) > 1 else None)
-                    ok = t is not None and dotted(t) == "self.timeout"
+                ok = _bounded_await(chk, ci, aw.value, 0)
                 if not ok:
                     chk.finding("E4", fi.key, f"unbounded-wait:{txt[:40]}", f"`await {txt[:60]}` is not bounded by asyncio.wait_for(..., timeout=self.timeout): a server that never finishes holds the call for ever", fi.loc(aw))
                 chk.ob("E4", f"{fi.key}: `{txt[:40]}` bounded", ok)
